@@ -29,7 +29,7 @@ ASSUMPTIONS = ['theory hoare (logic, nat, function, list, int ... loaded); pools
 RULE = ('one evaluation = one (macro, argument, premises) triple; distinct = distinct triples on which eval succeeded and an expansion was produced (these were checked and judged); '
         'non-trivial = same')
 EXPLANATION = 'see LEVEL_TEXT'
-BUDGET_S = {'quick': 240, 'thorough': 1500}
+BUDGET_S = {'quick': 240, 'thorough': 900}
 
 
 def bounds(tier):
